@@ -97,6 +97,10 @@ def obs_events(chk):
             cplx = bool(rng.randint(2))
         # amplitude variety: Thomson's formula and the convergence test are relative to the data variance
         x = zoo.signal(rng, N, cplx, ['noise', 'tones'][rep % 2]) * [1.0, 1e-3, 1e3, 1e-2][rep % 4]
+        if rep % 3 == 2:
+            # a record with a mean: sigma^2 of Thomson's formula is the power of the record, the integral of the spectrum
+            # the weights are applied to (DC line included), not its variance about the mean
+            x = x + 2.0 * [1.0, 1e-3, 1e3, 1e-2][rep % 4] * (1 + (0.5j if cplx else 0))
         nfft = int(rng.choice([N, N + 3, 2 * N]))
         ok, tv = call_guard(dpss, N, NW, k)
         if not ok:
@@ -188,6 +192,31 @@ def obs_events(chk):
             else:
                 ev.update(len_ok=False, real_nonneg=False, mean_dev=0, pre_dev=0)
             batch.add(ev, {'N': N, 'NW': NW, 'k': k, 'nfft': nfft, 'method': method, 'seed': chk.seed, 'rep': rep, 'recompute': True})
+    # NW, k and the method re-assigned on an evaluated object, then an explicit computation: the estimate of a fresh object
+    # with those values (tapers, eigenvalues and weights are those of the current attributes)
+    for i, (nw2, k2, m2) in enumerate(((4.0, 6, 'eigen'), (2.0, 3, 'adapt'), (3.0, 5, 'unity'))):
+        cplx = bool(i % 2)
+        N = 48
+        x = zoo.signal(rng, N, cplx, 'tones')
+        ev = {'ev': 'class', 'method': m2, 'N': N, 'k': k2, 'nfft': 64, 'cplx': cplx, 'recompute': True}
+
+        def live2():
+            p = MultiTapering(x.copy(), NW=2.5, k=4, NFFT=64, method='eigen', scale_by_freq=False)
+            p.psd
+            p.NW, p.k, p.method = nw2, k2, m2
+            p()
+            return np.array(p.psd)
+        ok1, a = call_guard(live2)
+        ok2, b = call_guard(lambda: np.array(MultiTapering(x.copy(), NW=nw2, k=k2, NFFT=64, method=m2, scale_by_freq=False).psd))
+        ev['raised'] = not (ok1 and ok2)
+        if ok1 and ok2:
+            ev['len_ok'] = bool(a.shape == b.shape)
+            ev['real_nonneg'] = bool(np.isrealobj(a) and np.all(a >= 0))
+            ev['mean_dev'] = obs.q(zoo.rel_dev(a, b)) if a.shape == b.shape else obs.QCAP
+            ev['pre_dev'] = 0
+        else:
+            ev.update(len_ok=False, real_nonneg=False, mean_dev=0, pre_dev=0)
+        batch.add(ev, {'N': N, 'NW': nw2, 'k': k2, 'method': m2, 'reassigned': True, 'seed': chk.seed})
     # the default number of tapers, for time half-bandwidths that are and are not multiples of 1/2
     for i, NW in enumerate((2.5, 2.3, 3.4, 1.9, 4, 2.75) if chk.tier == 'quick' else (2.5, 2.3, 3.4, 1.9, 4, 2.75, 1.3, 2.8, 3.3, 4.45, 2.25, 3)):
         N = (32, 45, 64)[i % 3]
